@@ -52,6 +52,9 @@ func c12Cases(tier string, seed uint64, flavor string) []lib.Case {
 			}
 		}
 		if tier == "thorough" {
+			for sh := 0; sh < 32; sh++ {
+				cases = append(cases, lib.Case{Kind: "exh:a3-len5", Spec: lib.MustSpec(c12Spec{Mode: "exh", Alpha: 3, MaxLen: 5, Parts: []int{0, 1, 2, 3, 5, 16}, Shard: sh, Shards: 32})})
+			}
 			for sh := 0; sh < 64; sh++ {
 				cases = append(cases, lib.Case{Kind: "exh:a2-len8", Spec: lib.MustSpec(c12Spec{Mode: "exh", Alpha: 2, MaxLen: 8, Parts: []int{0, 1, 2, 3, 4, 7, 16}, Shard: sh, Shards: 64})})
 			}
@@ -59,7 +62,7 @@ func c12Cases(tier string, seed uint64, flavor string) []lib.Case {
 	}
 	nrand, nlru := 150, 300
 	if tier == "thorough" {
-		nrand, nlru = 2000, 20000
+		nrand, nlru = 6000, 100000
 	}
 	if flavor == "race" {
 		nrand, nlru = nrand/5, 0
